@@ -179,6 +179,57 @@ theorem C19_gen_product_clock (l : S_Pll) (c : S_SystemClock) (wd : Go.World) (p
   rw [← C19_gen_clock_epoch c wd p]
   exact C19_gen_product l (sc c wd p) hc now off w pw
 
+/-- all clock calls one `Do` records, executed in order by the regenerated methods -/
+def genCalls (c : S_SystemClock) (w : Go.World) : List Go.ClkAction → Go.Out (S_SystemClock × Go.World)
+  | [] => .ok (c, w)
+  | a :: rest => (genCall c w a).bind fun r => genCalls r.1 r.2 rest
+
+open ScionTime.LeafTieC19Clock in
+/-- **The regenerated PLL driving the regenerated clock**: executing the calls a `Do` recorded, in
+    order, on the regenerated clock IS `PllClock.calls` of the product model — the same clock state,
+    and the world has received exactly the system actions (`clock_adjtime` arguments, goroutine starts)
+    the model's actions stand for, in the same order; a panic of a clock method exactly when the
+    product panics there. -/
+theorem C19_gen_clock_calls (before after : Pll.State) :
+    ∀ (acts : List Go.ClkAction) (c : S_SystemClock) (w : Go.World) (p : List SysClock.Adj)
+      (done : List SysClock.Action),
+      match PllClock.calls before after (sc c w p) done (acts.map act) with
+      | .ok s out => ∃ c' w' more, genCalls c w acts = .ok (c', w') ∧ sc c' w' s.clk.pending = s.clk ∧
+          s.pll = after ∧ out = done ++ more ∧ w'.acts = w.acts ++ more.flatMap enc
+      | .clockPanic _ _ _ => ∃ m, genCalls c w acts = .panic m
+      | .pllPanic _ => False := by
+  intro acts
+  induction acts with
+  | nil =>
+    intro c w p done
+    show ∃ c' w' more, genCalls c w [] = .ok (c', w') ∧ sc c' w' (sc c w p).pending = sc c w p ∧
+      after = after ∧ done = done ++ more ∧ w'.acts = w.acts ++ more.flatMap enc
+    exact ⟨c, w, [], rfl, rfl, rfl, by simp, by simp⟩
+  | cons x rest ih =>
+    intro c w p done
+    have h := C19_gen_clock_call c w p x
+    simp only [List.map_cons, PllClock.calls, genCalls]
+    cases hc : PllClock.call (sc c w p) (act x) with
+    | ok s1 acts1 =>
+      rw [hc] at h
+      obtain ⟨c1, w1, hg, hs1, hw1⟩ := h
+      simp only [hg, Go.Out.bind]
+      have ih' := ih c1 w1 s1.pending (done ++ acts1)
+      rw [hs1] at ih'
+      cases hr : PllClock.calls before after s1 (done ++ acts1) (rest.map act) with
+      | ok s out =>
+        rw [hr] at ih'
+        obtain ⟨c', w', more, h1, h2, h3, h4, h5⟩ := ih'
+        refine ⟨c', w', acts1 ++ more, h1, h2, h3, ?_, ?_⟩
+        · rw [h4, List.append_assoc]
+        · rw [h5, hw1, List.flatMap_append, List.append_assoc]
+      | clockPanic k s out => rw [hr] at ih'; exact ih'
+      | pllPanic k => rw [hr] at ih'; exact ih'
+    | panic k s1 acts1 =>
+      rw [hc] at h
+      obtain ⟨m, hm⟩ := h
+      exact ⟨m, by simp only [hm, Go.Out.bind]⟩
+
 /-- non-vacuity: the 5 ms step the regenerated PLL records, executed by the regenerated `Step` on a
     fresh regenerated clock: one `clock_adjtime` in nanosecond mode with `{0 s, 5000000 ns}`, epoch 1 -/
 example : (match genCall LeafTieC19Clock.c0 LeafTieC19Clock.w0 (.step 5000000) with
